@@ -1074,17 +1074,17 @@ func TestReplay(t *testing.T) {
 		t.Skip("no replay file", err)
 	}
 	defer dropBase()
-	replayEnv(t, e)
+	replayEnv(t, e, 25)
 }
 
-func replayEnv(t *testing.T, e *hx.Envelope) {
+func replayEnv(t *testing.T, e *hx.Envelope, repeat int) {
 	var c Case
 	if err := json.Unmarshal(e.Case, &c); err != nil {
 		t.Fatalf("bad case: %v", err)
 	}
 	if c.Kind == "conc" {
-		// schedule dependent: the same case is run until it fails, 25 times at most
-		for i := 0; i < 25; i++ {
+		// schedule dependent: a replay runs the case until it fails, 25 times at most
+		for i := 0; i < repeat; i++ {
 			if !execEnum(t, e.Test, &c) {
 				return
 			}
@@ -1097,7 +1097,7 @@ func replayEnv(t *testing.T, e *hx.Envelope) {
 func TestRegress(t *testing.T) {
 	defer dropBase()
 	for _, e := range hx.Regressions() {
-		replayEnv(t, e)
+		replayEnv(t, e, 1)
 		hx.Label("regress")
 	}
 }
